@@ -1,6 +1,7 @@
 
 from __future__ import annotations
 
+import re
 from datetime import datetime, tzinfo
 
 from .. import Params, Parseable
@@ -37,12 +38,17 @@ class DateTime(Parseable[datetime]):
         """The system timezone, used when no timezone is specified."""
         return datetime.now().astimezone().tzinfo
 
+    _zone = re.compile(r' [+-][0-9]{4}\Z')
+
     @classmethod
     def parse(cls, buf: memoryview, params: Params) \
             -> tuple[DateTime, memoryview]:
         string, after = QuotedString.parse(buf, params)
         try:
             when_str = str(string.value, 'ascii')
+            if not cls._zone.search(when_str):
+                # strptime also takes +hh:mm, +hhmmss and Z
+                raise ValueError(when_str)
             when = datetime.strptime(when_str, '%d-%b-%Y %X %z')
         except ValueError as exc:
             raise InvalidContent(buf) from exc
